@@ -189,7 +189,7 @@ theorem loop_intact (c : Cfg) (code : Code) (H : Bytes → Bytes) (wf : WF c cod
     ∀ (xs : List Bytes) (j fuel : Nat) (acc : Bytes),
       (∀ x ∈ xs, x ≠ [] ∧ x.length ≤ c.d * c.stripe) → xs.length < fuel →
       loop c code H fix (List.replicate c.n false) fuel j (readersAt c code H j xs) acc hacc
-        = ⟨acc ++ xs.flatten, false, List.replicate c.n none⟩ := by
+        = ⟨acc ++ xs.flatten, false, List.replicate c.n none, []⟩ := by
   have hn1 : 1 ≤ c.n := by have := wf.d_pos; simp [Cfg.n]; omega
   intro xs
   induction xs with
@@ -326,7 +326,7 @@ returns exactly the part — for every content, every `d ≥ 1`, `p` and stripe 
 and heals nothing. -/
 theorem read_intact (c : Cfg) (code : Code) (H : Bytes → Bytes) (wf : WF c code H) (fix : Fix) (b : Bytes) :
     read c code H fix ((List.range c.n).map fun k => some (shardStream c code H k b))
-      = .result ⟨b, false, List.replicate c.n none⟩ := by
+      = .result ⟨b, false, List.replicate c.n none, []⟩ := by
   have hn1 : 1 ≤ c.n := by have := wf.d_pos; simp [Cfg.n]; omega
   have hds : 0 < c.d * c.stripe := Nat.mul_pos wf.d_pos (by have := wf.stripe_ge; omega)
   unfold read
@@ -367,7 +367,7 @@ stream. With the repair it answers not-found and writes nothing. -/
 theorem read_absent (c : Cfg) (code : Code) (H : Bytes → Bytes) (fix : Fix) :
     read c code H fix (List.replicate c.n none) =
       if fix.notFoundWhenAllMissing then .notFound
-      else .result ⟨[], false, (List.range c.n).map fun k => some (shardStream c code H k [])⟩ := by
+      else .result ⟨[], false, (List.range c.n).map (fun k => some (shardStream c code H k [])), []⟩ := by
   unfold read
   have hall : (List.replicate c.n (none : Option Bytes)).all Option.isNone = true := by simp
   by_cases hf : fix.notFoundWhenAllMissing = true
